@@ -47,6 +47,14 @@ func verifyLemmas() *FuncResult {
 
 // loadAxioms evaluates the `axiom` clauses once; they are added to every query.
 func loadAxioms() {
+	// nat of an all-zero byte string is 0 (used by wipeBigInt)
+	if _, ok := specs.Ghosts["nat"]; ok {
+		n := BoundVar("ax$n", BV(64))
+		zarr := ConstArr(ArrSort(BV(64), BV(8)), BVLit(0, 8))
+		declFun("nat", "(declare-fun nat (BS) Int)")
+		t := UF("bs_of", SBS, zarr, BVLit(0, 64), n)
+		globalAxioms = append(globalAxioms, Forall([]*Term{n}, Eq(App("nat", SInt, t), IntLit(0)), t))
+	}
 	if len(specs.Axioms) == 0 {
 		return
 	}
